@@ -30,6 +30,9 @@
       keys a ModifyTable drops or re-points are live. *)
 From Coq Require Import List Bool Arith Permutation Sorted.
 From Atlas Require Import Plan.SortModel Plan.SortDfs Plan.SortReplay Plan.SortProofs Plan.SortDialect Plan.SortExamples.
+From Atlas Require Import Plan.SortTidbModel Plan.SortTidbProofs Plan.SortTidbExcept gen.Gen_TidbPriority.
+From Atlas Require Import Plan.SortSqliteModel Plan.SortSqliteProofs Plan.SortTies.
+From Atlas Require Import Plan.SortObjModel Plan.SortGenProofs Plan.SortObjProofs Plan.SortObjTypes Plan.SortObjExamples.
 Import ListNotations.
 
 (** 1. "Plans never fail or loop because of a cycle": for EVERY change list -- any reference
@@ -118,6 +121,204 @@ Theorem C04_safe_with_schemas : forall l c,
   exists r c', plan_all l = Some (schemas_of l, r) /\ plan (tables_of l) = POk r /\ replay r c = Some c'.
 Proof. exact plan_all_safe. Qed.
 
+(** 5. The TiDB planner (round 5): sql/mysql/tidb.go, PlanChanges of tplanApply -- installed by mysql.Open when the
+    server version contains "TiDB".  It runs DetachCycles, flattens every ModifyTable into atomic ModifyTables ([tflat]),
+    re-sorts them with sort.SliceStable by [priority] (the table is dumped from the Go source on every run:
+    gen/Gen_TidbPriority.v) and plans each atomic change alone with the MySQL planner ([tidb_sources]).  There is
+    NO SortChanges pass over the list.
+    For EVERY change list: the planner returns, its order is the flattened DetachCycles output sorted by priority
+    with the order of equal priorities kept (the sort is stable), every element is atomic (priority's c.Changes[0]
+    is defined), and creations, drops and declared foreign keys are the input's. *)
+Theorem C04_tidb_total : forall cs : list change, exists l, tidb_order cs = TOk l.
+Proof. exact tidb_order_total. Qed.
+
+Theorem C04_tidb_order : forall cs l, tidb_order cs = TOk l ->
+  exists d, tidb_detach cs = DCOk d /\ Permutation (tflat d) l /\ StronglySorted ple l /\
+    (forall k, filter (fun x => priority x =? k) l = filter (fun x => priority x =? k) (tflat d)) /\
+    (forall x, In x l -> atomic x).
+Proof. exact tidb_order_spec. Qed.
+
+Theorem C04_tidb_once : forall cs l, tidb_order cs = TOk l ->
+  Permutation (flat_map adds cs) (flat_map adds l) /\
+  Permutation (flat_map drops cs) (flat_map drops l) /\
+  Permutation (flat_map decl cs) (flat_map decl l).
+Proof. exact tidb_once. Qed.
+
+(** The full statement for this planner,
+      C04_tidb_safe : forall cs c, WF cs -> consistent c cs -> exists l c', tidb_plan cs = TOk l /\ replay l c = Some c',
+    is FALSE: priority(ModifyForeignKey) = 3 < priority(AddTable) = 4, so a foreign key that is re-pointed to a table
+    the same change set creates is declared before its parent exists (finding C04-tidb-modfk-priority, reproduced on
+    mysql.Open(sqlmock "5.7.25-TiDB-v6.1.0").PlanChanges: ALTER TABLE t0 ADD CONSTRAINT .. REFERENCES t1 before
+    CREATE TABLE t1).  Witness: SortExamples.ch_cs (WF and consistent: C04_safe covers it for the other planners). *)
+Theorem C04_tidb_safe_refuted : exists cs c l,
+  WF cs /\ consistent c cs /\ tidb_plan cs = TOk l /\ replay l c = None.
+Proof. exists ch_cs, ch_cat, ch_tidb. exact (conj ch_wf (conj ch_cons ch_tidb_runs)). Qed.
+
+(** The exception is exact.  The failing class, for ALL inputs and with no hypothesis on the change set: whenever a
+    ModifyForeignKey points its new side at a table that is not in the catalogue (i.e. that the change set has to create
+    first), the TiDB order fails to replay (C04_tidb_unsafe_class).  Conversely, for every well-formed change set and
+    consistent catalogue in which every re-pointed key points at a table of the catalogue, the TiDB order replays
+    (C04_tidb_safe_except: both DetachCycles branches; the stable priority sort of a list that is sorted by the sortMap
+    index resp. by planned / deferred is sorted by the lexicographic rank (priority, key); needs of the dumped table only
+    priority(AddTable) <= priority(AddForeignKey), priority(DropForeignKey) < priority(DropTable),
+    priority(ModifyForeignKey) < priority(DropTable)).  Together: C04_tidb_safe_exact.  These three are about
+    [tidb_order], the order of the atomic changes; the statement sources [tidb_plan] (each atomic change planned alone by
+    the MySQL planner) are covered by the tie and the oracle of stage tidb and by the witness of C04_tidb_safe_refuted. *)
+Theorem C04_tidb_unsafe_class : forall cs c l t tcs from to,
+  In (ModifyTable t tcs) cs -> In (ModifyFK from to) tcs -> ~ In (qn (f_ref to)) (c_tabs c) ->
+  tidb_order cs = TOk l -> replay l c = None.
+Proof. exact tidb_unsafe_class. Qed.
+
+Theorem C04_tidb_safe_except : forall cs c l,
+  WF cs -> consistent c cs ->
+  (forall t tcs from to, In (ModifyTable t tcs) cs -> In (ModifyFK from to) tcs -> In (qn (f_ref to)) (c_tabs c)) ->
+  tidb_order cs = TOk l -> exists c', replay l c = Some c'.
+Proof. intros cs c l HWF Hc Hex. exact (tidb_safe_except cs c HWF Hc Hex l). Qed.
+
+Theorem C04_tidb_safe_exact : forall cs c l,
+  WF cs -> consistent c cs -> tidb_order cs = TOk l ->
+  ((exists c', replay l c = Some c') <->
+   (forall t tcs from to, In (ModifyTable t tcs) cs -> In (ModifyFK from to) tcs -> In (qn (f_ref to)) (c_tabs c))).
+Proof.
+  intros cs c l HWF Hc Ho. split.
+  - intros [c' Hr] t tcs from to H1 H2.
+    destruct (in_dec Nat.eq_dec (qn (f_ref to)) (c_tabs c)) as [Hin|Hn]; [exact Hin|].
+    rewrite (tidb_unsafe_class cs c l t tcs from to H1 H2 Hn Ho) in Hr. discriminate.
+  - intros Hex. exact (tidb_safe_except cs c HWF Hc Hex l Ho).
+Qed.
+
+(** 6. Typed objects (round 5): change sets with PostgreSQL enum types -- AddObject / DropObject next to table changes
+    whose columns use the types (SortObjModel.v: [xchange], [xdependsOn] with the arms AddTable/AddObject,
+    ModifyTable/AddObject (AddColumn, ModifyColumn.To), DropObject/DropTable, DropObject/ModifyTable (DropColumn);
+    IsType = pointer equality; an object change has sort key 0 in DetachCycles, falls through dependencies and
+    detachReferences, DropObject is in SortChanges' drop partition).  [erase_all] is the table-only change set behind
+    an extended one.
+    For EVERY extended change list: where the Go code ignores objects and column types, the extended functions are
+    the table-only ones on the projection ... *)
+Theorem C04_objects_commute :
+  (forall X, xsortMap X = sortMap (erase_all X)) /\
+  (forall X, erase_all (xdetachReferences X) = detachReferences (erase_all X)) /\
+  (forall X, filter xis_obj (xdetachReferences X) = filter xis_obj X) /\
+  (forall x y, xis_obj x = false -> xis_obj y = false -> xdependsOn x y = dependsOn (erase1 x) (erase1 y)).
+Proof. exact (conj xsortMap_erase (conj xdetach_erase (conj xdetach_objs xdep_tables))). Qed.
+
+(** ... the planner terminates (any graph, any use of the types), and the plan is a permutation of what DetachCycles
+    returned: every CREATE TYPE / DROP TYPE and every table creation / drop of the input exactly as often as in the input. *)
+Theorem C04_total_objects : forall X : list xchange, exists l, xplan X = XPOk l.
+Proof. exact xplan_total. Qed.
+
+Theorem C04_once_objects : forall X l, xplan X = XPOk l ->
+  exists d, xDetachCycles X = XDCOk d /\ Permutation d l /\
+    Permutation (flat_map oadds X) (flat_map oadds l) /\ Permutation (flat_map odrops X) (flat_map odrops l) /\
+    Permutation (flat_map adds (erase_all X)) (flat_map adds (erase_all l)) /\
+    Permutation (flat_map drops (erase_all X)) (flat_map drops (erase_all l)).
+Proof. exact xplan_once. Qed.
+
+(** SortChanges as a function of the change type (SortObjModel.gSortChanges): for ANY change type, dependency test and
+    drop test -- if the dependency relation is acyclic on the partitioned input (a rank exists), the result is a
+    permutation in which every dependency stands before its dependent, and, when no non-drop depends on a drop,
+    every drop behind every other change.  (SortDfs.SortChanges_ranked, proved with the three as parameters.) *)
+Theorem C04_SortChanges_generic : forall (A : Type) (dep : A -> A -> bool) (isdrop : A -> bool) (r : A -> nat) (l : list A),
+  let cs := gpartition A isdrop l in
+  NoDup cs ->
+  (forall x y, In x cs -> In y cs -> x <> y -> dep x y = true -> r y < r x) ->
+  exists out, gSortChanges A dep isdrop l = Some out /\ Permutation cs out /\
+    (forall pre x post y, out = pre ++ x :: post -> In y cs -> y <> x -> dep x y = true -> In y pre) /\
+    ((forall x y, In x cs -> In y cs -> isdrop x = false -> x <> y -> dep x y = true -> isdrop y = false) ->
+     forall pre x post y, out = pre ++ x :: post -> isdrop x = false -> In y pre -> isdrop y = false).
+Proof. exact gSortChanges_ranked. Qed.
+
+(** C04_safe with objects: for every change set whose table changes are well-formed (WF of the projection; an object
+    change occurs once) and every consistent catalogue, in both branches of DetachCycles and for every tie-break of
+    its sort.Slice: the plan [out] is a permutation of the detached input in which
+      - every change stands behind every change it depends on -- in particular CREATE TYPE e stands before every
+        CREATE TABLE / ADD COLUMN / ALTER COLUMN TYPE that uses e, DROP TYPE e behind every DROP TABLE with a column
+        of type e and every DROP COLUMN of type e (the four object arms of xdependsOn), and every table / foreign-key
+        dependency as before;
+      - no drop (DROP TABLE, DROP TYPE) stands before a change that is no drop -- so DROP TYPE e also stands behind an
+        ALTER COLUMN that moves a column AWAY from e, for which dependsOn has no arm;
+      - the table projection replays on the reference catalogue (tables and foreign keys), as in C04_safe.
+    [xplan_ok] is that conjunction.  The type half of the catalogue ([treplay]: a type exists when used, is created
+    once, dropped only when unused) is C04_safe_objects_full below. *)
+Theorem C04_safe_objects_any_tiebreak : forall X c S,
+  XWF X -> consistent c (erase_all X) -> xdetach_spec X S ->
+  exists out, xSortChanges S = Some out /\ xplan_ok S out c.
+Proof. exact xsafe_any_tiebreak. Qed.
+
+Theorem C04_safe_objects : forall X c,
+  XWF X -> consistent c (erase_all X) ->
+  exists S out, xDetachCycles X = XDCOk S /\ xplan X = XPOk out /\ xplan_ok S out c.
+Proof. exact xplan_safe. Qed.
+
+(** The full statement with objects.  Reference catalogue = tables and foreign keys as before + the existing enum
+    types and the (table, type) uses; [xreplay] fails on every error of [replay] and on: CREATE TYPE of an existing type,
+    a column (CREATE TABLE, ADD COLUMN, ALTER COLUMN TYPE) of a type that does not exist at that moment, DROP TYPE of
+    a missing type, DROP TYPE while a column still uses the type.
+    [xconsistent c X] = consistent for the table half + [tconsistent]: created types are new and dropped types exist
+    (each once); a type that a change starts using is not dropped by the set and exists or is created by the set --
+    by an AddObject carrying the very type object (pointer) the column has, as in a realm; every existing use of a
+    dropped type is given up by the set (its table is dropped and lists the type object DropObject carries, or the
+    column is dropped / moved to another type).
+    For every such change set and catalogue -- any FK graph, both DetachCycles branches, any tie-break -- the plan replays. *)
+Theorem C04_types_split : forall l t0, tsplit_ok l t0 -> exists st, treplay l t0 = Some st.
+Proof. exact tsplit_replay_ok. Qed.
+
+Theorem C04_safe_objects_full_any_tiebreak : forall X c S,
+  XWF X -> xconsistent c X -> xdetach_spec X S ->
+  exists out c', xSortChanges S = Some out /\ Permutation S out /\ xreplay out c = Some c'.
+Proof. exact xreplay_safe_any_tiebreak. Qed.
+
+Theorem C04_safe_objects_full : forall X c,
+  XWF X -> xconsistent c X -> exists out c', xplan X = XPOk out /\ xreplay out c = Some c'.
+Proof. exact xreplay_safe. Qed.
+
+(** A by-product: in the cycle-free branch the order DetachCycles produces is not needed for safety -- ANY order of a
+    well-formed table-only change set that respects every dependsOn edge and keeps the drops behind replays. *)
+Theorem C04_edges_suffice : forall cs c out,
+  WF cs -> consistent c cs -> Permutation cs out ->
+  (forall pre x post y, out = pre ++ x :: post -> In y cs -> y <> x -> dependsOn x y = true -> In y pre) ->
+  (forall pre x post y, out = pre ++ x :: post -> is_drop x = false -> In y pre -> is_drop y = false) ->
+  exists c', replay out c = Some c'.
+Proof. intros cs c out HWF Hc Hp Hd Hb. exact (split_replay_ok out c (edge_split cs c HWF Hc out Hp Hd Hb)). Qed.
+
+(** 7. The SQLite planner (round 5): sql/sqlite/migrate.go, PlanChanges / state.plan.  It calls neither DetachCycles nor
+    SortChanges: the statements follow the change list ([sqlite_plan l] = (bracket?, l)), and the plan is bracketed by
+    PRAGMA foreign_keys = off / on exactly when it drops a table or rebuilds one (a ModifyTable that is not
+    [alterable]: everything but plain ADD COLUMN).  SQLite's catalogue ([sreplay off]): a foreign key to a table that
+    does not exist is legal; DROP TABLE of a table referenced from another table fails under enforcement (pessimistic:
+    as soon as a row references it) and is legal with enforcement off.
+    The SQLite analogue of C04_safe: for every well-formed change set IN ANY ORDER -- any reference graph, cycles
+    included -- and every consistent catalogue the plan replays: every table is created / dropped once (the plan is
+    the list), and the only order-dependent obligation SQLite has is switched off by the bracket whenever a table is
+    dropped. *)
+Theorem C04_sqlite_plan_spec : forall l,
+  snd (sqlite_plan l) = l /\
+  (fst (sqlite_plan l) = true <->
+   exists x, In x l /\ match x with AddTable _ _ => False | DropTable _ _ => True | ModifyTable _ tcs => alterable tcs = false end).
+Proof. exact sqlite_plan_spec. Qed.
+
+Theorem C04_sqlite_safe : forall cs c,
+  WF cs -> consistent c cs -> exists c', sreplay (fst (sqlite_plan cs)) (snd (sqlite_plan cs)) c = Some c'.
+Proof. exact sqlite_safe. Qed.
+
+(** 8. What Go's unstable sort.Slice in DetachCycles can change (round 5; reusable by C20).  In the cycle-free branch
+    every tie-break gives a plan that is sorted by the rank [ra sorted] = (sortMap index, drops behind); two changes of
+    equal rank -- the only ones whose order a tie-break can swap -- never depend on one another; two tie-breaks give
+    plans that are permutations of one another and order every two changes of different rank alike.  (In the cycle
+    branch DetachCycles does not sort: the plan is a function of the input list.) *)
+Theorem C04_ties_independent : forall cs sorted x y,
+  WF cs -> sortMap cs = SMOk sorted -> In x cs -> In y cs -> x <> y ->
+  ra sorted x = ra sorted y -> dependsOn x y = false /\ dependsOn y x = false.
+Proof. exact ties_independent. Qed.
+
+Theorem C04_tiebreaks_agree : forall cs sorted S1 S2 o1 o2,
+  WF cs -> sortMap cs = SMOk sorted -> detach_spec cs S1 -> detach_spec cs S2 ->
+  SortChanges S1 = Some o1 -> SortChanges S2 = Some o2 ->
+  Permutation o1 o2 /\
+  (forall pre x post y, o1 = pre ++ x :: post -> In y pre -> ra sorted y <> ra sorted x ->
+     exists pre' post', o2 = pre' ++ x :: post' /\ In y pre').
+Proof. exact tiebreaks_agree. Qed.
+
 Print Assumptions C04_total.
 Print Assumptions C04_total_parts.
 Print Assumptions C04_once.
@@ -129,6 +330,27 @@ Print Assumptions C04_acyclic_sort_is_partition.
 Print Assumptions C04_safe_dialects.
 Print Assumptions C04_toplevel_once.
 Print Assumptions C04_safe_with_schemas.
+Print Assumptions C04_tidb_total.
+Print Assumptions C04_tidb_order.
+Print Assumptions C04_tidb_once.
+Print Assumptions C04_tidb_safe_refuted.
+Print Assumptions C04_tidb_unsafe_class.
+Print Assumptions C04_tidb_safe_except.
+Print Assumptions C04_tidb_safe_exact.
+Print Assumptions C04_objects_commute.
+Print Assumptions C04_total_objects.
+Print Assumptions C04_once_objects.
+Print Assumptions C04_SortChanges_generic.
+Print Assumptions C04_safe_objects_any_tiebreak.
+Print Assumptions C04_safe_objects.
+Print Assumptions C04_edges_suffice.
+Print Assumptions C04_types_split.
+Print Assumptions C04_safe_objects_full_any_tiebreak.
+Print Assumptions C04_safe_objects_full.
+Print Assumptions C04_sqlite_plan_spec.
+Print Assumptions C04_sqlite_safe.
+Print Assumptions C04_ties_independent.
+Print Assumptions C04_tiebreaks_agree.
 
 (** Non-vacuity. *)
 (* C04_total / C04_once: a 3-cycle of created tables is planned (6 changes out of 3). *)
@@ -211,3 +433,87 @@ Example C04_safe_with_schemas_ex :
   plan_all (GSchema (AddSchema 2) :: GSchema (ModifySchema 1) :: map GTable tw_cs)
     = Some ([AddSchema 2; ModifySchema 1], tw_plan).
 Proof. vm_compute. reflexivity. Qed.
+
+(* round 5 -- the TiDB planner on the chain example: the re-pointed key (priority 3) is declared before CREATE TABLE 1
+   (priority 4); DROP TABLE 3 keeps the place DetachCycles gave it (no SortChanges) *)
+Example C04_tidb_ex :
+  tidb_order ch_cs = TOk
+    [ ModifyTable (des 0) [ModifyFK (mkFK 5 (cur 0) (cur 3)) (mkFK 5 (des 0) (des 1))];
+      AddTable (des 2) []; DropTable (cur 3) []; AddTable (des 1) [mkFK 22 (des 1) (des 2)] ] /\
+  tidb_plan ch_cs = TOk ch_tidb /\ replay ch_tidb ch_cat = None /\
+  (exists c', replay ch_plan ch_cat = Some c').
+Proof. vm_compute. repeat split; try reflexivity. eexists; reflexivity. Qed.
+
+(* C04_tidb_order / C04_tidb_once: a ModifyTable with four sub-changes among two creations flattens to 6 atomic
+   changes and is re-sorted: AddColumn (1), DropForeignKey (2), then the rest in DetachCycles' order *)
+Example C04_tidb_order_ex :
+  tidb_order [ AddTable (des 1) []; ModifyTable (des 0) [Other 1; AddFK (mkFK 21 (des 0) (des 1)); DropFK (mkFK 5 (cur 0) (cur 2)); Other 2] ]
+  = TOk [ ModifyTable (des 0) [Other 2]; ModifyTable (des 0) [DropFK (mkFK 5 (cur 0) (cur 2))];
+          AddTable (des 1) []; ModifyTable (des 0) [Other 1]; ModifyTable (des 0) [AddFK (mkFK 21 (des 0) (des 1))] ].
+Proof. vm_compute. reflexivity. Qed.
+
+(* round 5 -- enum objects: CREATE TYPE 0 moves to the front, DROP TYPE 1 to the end, the cycle 0 <-> 1 is detached;
+   both halves of the catalogue replay on the plan; the input order fails on the type half *)
+Example C04_safe_objects_ex :
+  XWF ox_cs /\ consistent ox_cat (erase_all ox_cs) /\
+  xsortMap ox_cs = SMCycle /\ xplan ox_cs = XPOk ox_plan /\
+  replay (erase_all ox_plan) ox_cat = Some (kcat [1; 0] [(1, 20, 0); (0, 21, 1)]) /\
+  treplay ox_plan ox_types = Some ([0], [(qcode 0 1, 0); (qcode 0 0, 0)]) /\
+  treplay ox_cs ox_types = None.
+Proof. exact (conj ox_wf (conj ox_cons ox_runs)). Qed.
+
+Example C04_once_objects_ex :
+  flat_map oadds ox_plan = [0] /\ flat_map odrops ox_plan = [1] /\
+  flat_map adds (erase_all ox_plan) = ktabs [1] /\ flat_map drops (erase_all ox_plan) = ktabs [2].
+Proof. vm_compute. repeat split; reflexivity. Qed.
+
+(* C04_SortChanges_generic is the statement SortChanges_ranked at A = change: the generic function is SortChanges *)
+Example C04_SortChanges_generic_ex :
+  gSortChanges change dependsOn is_drop ch_cs = SortChanges ch_cs /\ gSortChanges change dependsOn is_drop c3_cs = SortChanges c3_cs.
+Proof. vm_compute. split; reflexivity. Qed.
+
+(* C04_safe_objects_full on the example: hypotheses hold, the plan replays on both halves; the input order does not *)
+Example C04_safe_objects_full_ex :
+  XWF ox_cs /\ xconsistent (mkXC ox_cat (fst ox_types) (snd ox_types)) ox_cs /\
+  xreplay ox_plan (mkXC ox_cat (fst ox_types) (snd ox_types))
+    = Some (mkXC (kcat [1; 0] [(1, 20, 0); (0, 21, 1)]) [0] [(qcode 0 1, 0); (qcode 0 0, 0)]) /\
+  xreplay ox_cs (mkXC ox_cat (fst ox_types) (snd ox_types)) = None.
+Proof. split; [exact ox_wf|]. split; [exact ox_xcons|]. vm_compute. split; reflexivity. Qed.
+
+(* C04_types_split: the obligations are met by the plan of the example *)
+Example C04_types_split_ex : tsplit_ok ox_plan ox_types.
+Proof.
+  destruct (xplan_safe ox_cs ox_cat ox_wf ox_cons) as [S [out [HS [Hp [P1 [P2 [P3 _]]]]]]].
+  rewrite (proj1 (proj2 ox_runs)) in Hp. injection Hp as <-.
+  exact (plan_tsplit ox_cs S ox_plan ox_types (xDetachCycles_spec _ _ HS) ox_tcons P1 P2 P3).
+Qed.
+
+(* round 5 -- SQLite: the selfref example (a created self-referencing table, a 2-cycle of dropped tables) in its input
+   order: bracketed, replays on the SQLite catalogue -- and would not replay without the bracket, nor does the input
+   order replay on the catalogue of the other dialects *)
+Example C04_sqlite_safe_ex :
+  WF sr_cs /\ consistent sr_cat sr_cs /\ sqlite_plan sr_cs = (true, sr_cs) /\
+  (exists c', sreplay true sr_cs sr_cat = Some c') /\ sreplay false sr_cs sr_cat = None /\ replay sr_cs sr_cat = None.
+Proof. split; [exact sr_wf|]. split; [exact sr_cons|]. vm_compute. repeat split; try reflexivity. eexists; reflexivity. Qed.
+
+(* no bracket when the plan only creates tables and adds plain columns *)
+Example C04_sqlite_plan_spec_ex :
+  sqlite_plan [AddTable (des 1) [mkFK 20 (des 1) (des 0)]; ModifyTable (des 0) [Other 2]; AddTable (des 2) []]
+  = (false, [AddTable (des 1) [mkFK 20 (des 1) (des 0)]; ModifyTable (des 0) [Other 2]; AddTable (des 2) []]) /\
+  fst (sqlite_plan [ModifyTable (des 0) [Other 1]]) = true.
+Proof. vm_compute. split; reflexivity. Qed.
+
+(* C04_ties_independent / C04_tiebreaks_agree: in the chain example CREATE TABLE 2 and DROP TABLE 3 ... have different
+   ranks, CREATE TABLE 2 (index 0) and the unrelated rank-0 changes tie; the two tie-breaks of C04_safe_ex_tiebreak *)
+Example C04_ties_ex :
+  sortMap ch_cs = SMOk [2; 1; 0] /\
+  ra [2; 1; 0] (AddTable (des 2) []) = 0 /\ ra [2; 1; 0] (DropTable (cur 3) []) = 4 /\
+  ra [2; 1; 0] (AddTable (des 1) [mkFK 22 (des 1) (des 2)]) = 1 /\
+  dependsOn (AddTable (des 1) [mkFK 22 (des 1) (des 2)]) (AddTable (des 2) []) = true.
+Proof. vm_compute. repeat split; reflexivity. Qed.
+
+(* C04_tidb_safe_except: the selfref example (no re-pointed key; a cycle) is planned safely by the TiDB order *)
+Example C04_tidb_safe_except_ex :
+  WF sr_cs /\ consistent sr_cat sr_cs /\
+  exists l c', tidb_order sr_cs = TOk l /\ replay l sr_cat = Some c' /\ length l = 5.
+Proof. split; [exact sr_wf|]. split; [exact sr_cons|]. eexists; eexists. vm_compute. repeat split; reflexivity. Qed.
